@@ -61,6 +61,12 @@ func Run() bool {
 func launch(name string) {
 	cmd := exec.Command(os.Args[0])
 	cmd.Env = append(os.Environ(), envDaemonName+"="+name, envDaemonFlag+"=isDaemon")
+
+	// listen for Done() before the daemon exists: it may send the signal at once
+	interrupt := make(chan os.Signal, 1)
+	signal.Notify(interrupt, os.Interrupt)
+	defer signal.Stop(interrupt)
+
 	if err := cmd.Start(); err != nil {
 		os.Stderr.Write([]byte("start daemon: " + err.Error()))
 		return
@@ -76,9 +82,6 @@ func launch(name string) {
 		close(finished)
 	}()
 
-	interrupt := make(chan os.Signal, 1)
-	signal.Notify(interrupt, os.Interrupt)
-	defer signal.Stop(interrupt)
 	select {
 	case <-finished:
 	case <-interrupt:
